@@ -53,6 +53,24 @@ fn any_proof(env: &Env, n: usize) -> Proof {
     Proof { signers: ps, threshold: kani::any(), nonce: any::b32(1) }
 }
 
+/// the proof's entries, one by one and in order, are exactly the installed set's members with their
+/// weights, and threshold and nonce agree
+fn proof_names(proof: &Proof, np: usize, inst: &WeightedSigners, n: usize) -> bool {
+    if np != n || proof.signers.len() as usize != np || inst.signers.len() as usize != n {
+        return false;
+    }
+    let mut same = proof.threshold == inst.threshold && proof.nonce == inst.nonce;
+    let mut i = 0;
+    while i < np {
+        let a = proof.signers.at(i);
+        let b = inst.signers.at(i);
+        if a.signer.signer != b.signer || a.signer.weight != b.weight {
+            same = false;
+        }
+        i += 1;
+    }
+    same
+}
 /// One installed set (N signers) at symbolic epoch s <= e; arbitrary proof with NP entries.
 fn c01_wiring(n: usize, np: usize) -> u8 {
     let env = Env::default();
@@ -85,7 +103,8 @@ fn c01_wiring(n: usize, np: usize) -> u8 {
     });
     let w0 = model::storage_writes();
     let res = model::with_contract(&gw(), || validate_proof(&env, &data_hash, proof.clone()));
-    let names_installed = proof.weighted_signers() == inst;
+    // computed from the raw proof entries, NOT with the contract's own Proof::weighted_signers()
+    let names_installed = proof_names(&proof, np, &inst, n);
     let outcome: u8;
     match res {
         Ok(latest) => {
@@ -141,4 +160,12 @@ fn c01_wiring_n2_p1() {
 fn c01_wiring_n1_p2() {
     let o = c01_wiring(1, 2);
     kani::cover!(o == 4, "VERIF:reach:proof with an added signer refused");
+}
+
+// HARNESS props=C01,C08 tier=thorough profile=gw_wire3 shape="installed set N=3, proof with 3 entries"
+#[kani::proof]
+#[kani::unwind(220)]
+#[kani::stub(validate_signatures, stub_validate_signatures)]
+fn c01_wiring_n3() {
+    covers_matching(c01_wiring(3, 3))
 }
